@@ -200,6 +200,7 @@ func (l *Listener) HotRestart(epoch uint64) error {
 			l.state = defaultState
 			return err
 		}
+		vpo(vpLnHotRestartSent, session, int64(epoch))
 		session.state = hotRestartState
 		l.hotRestartAckCount++
 	}
